@@ -78,7 +78,13 @@ type vRecW struct {
 	all []byte
 }
 
-func (r *vRecW) Write(p []byte) (int, error) { r.all = append(r.all, p...); return len(p), nil }
+// (every destination write is a point at which other goroutines run and recycle the library's
+// pools: a buffer the library released BEFORE handing it to the destination is no longer its own)
+func (r *vRecW) Write(p []byte) (int, error) {
+	vPoisonPools()
+	r.all = append(r.all, p...)
+	return len(p), nil
+}
 
 type vBytesSrc struct {
 	data    []byte
@@ -175,7 +181,11 @@ func (h *vHalf) Read(p []byte) (int, error) {
 	return n, nil
 }
 
-func (h *vHalf) Write(p []byte) (int, error) { h.out = append(h.out, p...); return len(p), nil }
+func (h *vHalf) Write(p []byte) (int, error) {
+	vPoisonPools()
+	h.out = append(h.out, p...)
+	return len(p), nil
+}
 
 func vOptsEqual(a, b []httphead.Option) bool {
 	if len(a) != len(b) {
